@@ -10,9 +10,11 @@ correspondence: E-CONC — harness/c14.cpp runs the real IdAllocator<uint16_t|ui
                 every slot + call/ret events with ids and items) is replayed in lock-step by
                 lean/Drivers/C14.lean; the harness evaluates the ownership / single-taker / stale-id /
                 wrong-item / for_each / reuse oracles itself.  ThreadId runs are oracle only.
-                thorough tier: harness/c14_wrap.cpp replays the schedule of theorem ida_wrap_counterexample on
+                view mode:  the same harness modes under VRT_MEM=view (stale loads allowed by release/acquire), oracle only.
+                wrap replay: harness/c14_wrap.cpp replays the schedule of theorem ida_wrap_counterexample on
                 the real IdAllocator<uint16_t> (one allocate stalled before its CAS while id 0 is recycled
-                65536 times; control run with 65535) — DESIGN section 7 #7.
+                65536 times; control run with 65535) — DESIGN section 7 #7; reproduces, recorded as known finding
+                key oracle:wrap16:dup (printed as KNOWN-FINDING on every run).
 """
 from vlib.core import *
 
@@ -31,7 +33,7 @@ def warm():
 def run(ctx):
     ctx.cov["trusted_base"] += [
         "vrt/vrt.cpp (TSan-ABI interposition, deterministic scheduler, futex/mutex emulation) and the TSan-instrumented build (differs from production in the places listed in DESIGN 3.3)",
-        "executions are sequentially consistent interleavings at atomic-operation granularity; memory orders are tied statically (generated skeleton obligations) and checked dynamically by trace equality, weak-memory reorderings are not simulated for this property",
+        "theorems and lock-step replay are over sequentially consistent interleavings at atomic-operation granularity; memory orders are tied statically (generated skeleton obligations) and dynamically by trace equality; weak-memory behaviours are covered by an oracle-only pass under VRT's release/acquire view model (VRT_MEM=view), not by theorem",
         "NoWrap: fewer than 2^W pushes complete while one allocate is between its head load and its CAS (hypothesis of ida_unique; necessary: theorem ida_wrap_counterexample for W=2, and the W=16 schedule is replayed on the real IdAllocator<uint16_t> in the thorough tier); for the deposit box: fewer than 2^32-1 slot recycles in total (hypothesis BGood of box_single_taker / box_stale_never_matches)",
         "Cap: at most 2^W-2 ids are minted (ids stay below ACTIVE_FLAG / FREE_LIST_TAIL; the model's next_value is an unbounded natural number)",
     ]
@@ -53,12 +55,21 @@ def run(ctx):
     dist = {"modes": {}, "verdicts": {}, "replay_ok": 0, "replay_diverge": 0, "oracle": 0, "cas_fail_lines": 0, "max_trace": 0}
     distinct = set()
     samples = []
+    view = {"VRT_MEM": "view"}
     plan = [("alloc32", n, True, {}), ("alloc16", n, True, {}), ("alloc32", n // 2, True, {"VRT_STRATEGY": "pct"}),
-            ("box", n // 2, True, {}), ("box", n // 4, True, {"VRT_STRATEGY": "pct"}), ("threadid", n // 4, False, {})]
+            ("box", n // 2, True, {}), ("box", n // 4, True, {"VRT_STRATEGY": "pct"}), ("threadid", n // 4, False, {}),
+            # weak-memory pass (release/acquire view model, stale loads): oracle only, traces are not SC paths
+            ("alloc32", n // 4, False, view), ("alloc16", n // 4, False, view), ("box", n // 4, False, view),
+            ("threadid", n // 8, False, view)]
     for mode, cnt, lockstep, env in plan:
         runs = ctx.econc(exe, drv if lockstep else None, [mode], seed0, cnt, env=env)
-        dist["modes"][mode + ("/pct" if env else "")] = len(runs)
+        tag = mode + ("/pct" if "VRT_STRATEGY" in env else "") + ("/view" if "VRT_MEM" in env else "")
+        dist["modes"][tag] = len(runs)
         for r in runs:
+            if "VRT_MEM" in env:
+                for l in r["lines"]:
+                    if " ev stats " in l and " stale " in l:
+                        dist["view_stale_reads"] = dist.get("view_stale_reads", 0) + int(l.split()[-1])
             dist["verdicts"][r["verdict"]] = dist["verdicts"].get(r["verdict"], 0) + 1
             dist["max_trace"] = max(dist["max_trace"], len(r["lines"]))
             ncasfail = sum(1 for l in r["lines"] if " casw " in l and l.split()[-2] == "0")
@@ -66,15 +77,15 @@ def run(ctx):
             ntakefail = sum(1 for l in r["lines"] if " cas ver" in l and l.split()[-2] == "0")
             dist["cas_fail_lines"] += ncasfail
             dist["take_fail_lines"] = dist.get("take_fail_lines", 0) + ntakefail
-            if ncasfail > 0 or ntakefail > 0 or mode == "threadid":
+            if ncasfail > 0 or ntakefail > 0 or mode == "threadid" or "VRT_MEM" in env:
                 distinct.add(sha("\n".join(l for l in r["lines"] if " ev stats" not in l)))
             text = "mode=%s seed=%d env=%s\n%s" % (mode, r["seed"], env, "\n".join(r["lines"][-400:]))
             if r["oracle"]:
                 dist["oracle"] += 1
                 kind = r["oracle"][0].split("ORACLE", 1)[1].split()[0]
-                ctx.failing_input("oracle:%s:%s" % (mode, kind), text)
+                ctx.failing_input("oracle:%s:%s" % (mode + ("-view" if "VRT_MEM" in env else ""), kind), text)
             elif r["verdict"] != "ok":
-                ctx.failing_input("verdict:%s:%s" % (mode, r["verdict"].split()[0]), text + "\n" + r.get("stderr", ""))
+                ctx.failing_input("verdict:%s:%s" % (mode + ("-view" if "VRT_MEM" in env else ""), r["verdict"].split()[0]), text + "\n" + r.get("stderr", ""))
             elif lockstep:
                 if r["replay"] and r["replay"].startswith("ok"):
                     dist["replay_ok"] += 1
@@ -85,15 +96,14 @@ def run(ctx):
                 samples.append(r["lines"][:60])
             if len(ctx.failing) + len(ctx.broken) > 8:
                 break
-    if not ctx.quick:
-        wrap_replay(ctx, dist)
+    wrap_replay(ctx, dist)
     ctx.cov["distribution"] = dist
     ctx.cov["distinct_nontrivial"] = len(distinct)
     ctx.cov["traces_validated_against_impl"] = dist["replay_ok"]
     ctx.cov["rule"] = ("one case = one seeded program (sequential prefix, then 2-4 threads x 2-8 allocate/deallocate calls; deposit box: fresh box, sequential "
                        "prefix of 0-4 emplace/take/finish rounds, then 2-4 threads x 3-8 operations among emplace, take of a published id (newest untaken id so "
                        "that takers race, already-taken ids, stale ids whose slot was reused) and finish, replayed in lock-step against the box model; thread ids: 2-4 waves of 1-4 threads) under one seeded schedule (random with 5 stickiness "
-                       "levels, or PCT) with spurious weak-CAS failures 1/8; non-trivial = the trace contains at least one failed CAS on the free-list head "
+                       "levels, or PCT; a quarter as many again under the release/acquire view memory, oracle only) with spurious weak-CAS failures 1/8; non-trivial = the trace contains at least one failed CAS on the free-list head "
                        "(threads actually interfered) or, for box runs, also a failed strong CAS on a slot version word (a taker lost), or is a threadid run; "
                        "distinct by trace hash")
     ctx.cov["samples"] = samples or [["<no sample>"]]
@@ -139,7 +149,7 @@ def replay(ctx, path):
     mode, seed, env = m.group(1), int(m.group(2)), eval(m.group(3))
     exe, log = build_vrt_exe("c14", SRCS, repo_cpp=REPO_CPP)
     drv = ctx.driver("drv_C14")
-    runs = ctx.econc(exe, drv if (mode.startswith("alloc") or mode == "box") else None, [mode], seed, 1, env=env)
+    runs = ctx.econc(exe, drv if ((mode.startswith("alloc") or mode == "box") and "VRT_MEM" not in env) else None, [mode], seed, 1, env=env)
     r = runs[0]
     print("\n".join(r["lines"]))
     print("verdict:", r["verdict"], "replay:", r["replay"], "oracle:", r["oracle"])
